@@ -919,6 +919,9 @@ def check_maxseqs(ctx, rng, n, wide_opts=False):
         m = rng.randint(1 if wide_opts else 2, N + 2)
         if forced is not None:
             m = rng.randint(1, N - 1)
+        if wide_opts and t == 4:
+            m = 0                      # maxseqs = 0 is a number, not "no limit": the sub-sample has no element, every count is 0 (seeded change C05-r9m2)
+            ctx.count('maxseqs=0')
         narrow = rng.random() < 0.4
         edges = [Fraction(k) for k in range(0, 4)] if narrow else wide
         case.update(bins=[str(e) for e in edges], bins_container='list', normalize=False, pseudocount=None, maxseqs=m)
